@@ -167,3 +167,8 @@ def replay_args(v):
     if v["key"] == "c11.encode.find_name.returns_index_of_a_different_name":
         return ("c11_static_find", [m["input_name"], ""])
     return None
+
+
+# native scenarios that exercise, against the real build, the behaviours this spec decides: on a tree where the spec finds no
+# violation every one of them must NOT reproduce (a scenario that reproduces there means the spec misses something)
+SCENARIOS = [('c11_static_find', ['content-type', 'text/plain; charset=utf-8']), ('c11_static_find', ['content-type', 'text/plain;charset=utf-8']), ('c11_static_find', [':method', 'GET'])]
